@@ -753,6 +753,12 @@ impl Session {
             Err(_) => return,
         };
 
+        // Connection from this address is still alive for us (its task is running, it may have
+        // piece assigned): new entry would replace its state while the old task keeps reporting
+        if self.peers.contains_key(&addr) {
+            return;
+        }
+
         let mut peer_handler = PeerHandler::new(
             addr.clone(),
             self.own_id,
